@@ -90,7 +90,7 @@ def gen_case(run_seed: int, index: int, tier: str) -> dict:
     samples = []
     try:
         if kind in ("encoder", "decoder_hard", "decoder_soft"):
-            enc = C.build_encoder(comp["code"])
+            enc = C.private(C.build_encoder(comp["code"]))
             n, k = enc.code_length, enc.code_dimension
             if kind != "encoder":
                 kinds = C.decoder_kinds(comp["code"], enc, kind == "decoder_soft")
@@ -127,7 +127,7 @@ def gen_case(run_seed: int, index: int, tier: str) -> dict:
                     samples.append([(1 - 2 * b) * m for b, m in zip(word, mags)])
             comp["n_in"] = k if kind == "encoder" else n
         elif kind in ("modulator", "demodulator"):
-            m, _ = C.build_modem(comp["mod"], comp["via_registry"])
+            m, _ = C.build_modem(comp["mod"], comp["via_registry"])  # a fresh pair (modems are never cached by the catalogue)
             bps = 1 if comp["mod"]["scheme"] == "identity" else int(m.bits_per_symbol)
             nsym = rng.choice([1, 2, 3, 4])
             comp["bps"], comp["nsym"] = bps, nsym
@@ -202,9 +202,14 @@ def gen_case(run_seed: int, index: int, tier: str) -> dict:
 # ----------------------------------------------------------------------------- execution
 
 
-def _component(comp, fresh=False, via=None):
+def _component(comp, fresh=False, via=None, base=None):
     """returns (callable tensor->tensor, class name); `via` applies a neutral transformation to the object first"""
-    f, name, obj = _component_obj(comp, fresh)
+    f, name, obj = _component_obj(comp, fresh, obj=base)
+    if fresh and isinstance(obj, torch.nn.Module) and base is None:
+        import copy as _copy
+
+        obj = _copy.deepcopy(obj)  # never call a per-process prototype directly
+        f, name, obj = _component_obj(comp, obj=obj)
     if via and isinstance(obj, torch.nn.Module):
         import copy as _copy
 
@@ -363,7 +368,13 @@ def execute(case: dict) -> RunResult:
     comp = case["comp"]
     kind = comp["kind"]
     try:
-        fn, cname = _component(comp)
+        # hermetic: the case's "shared instance" is a private deep copy of the (never called) per-process prototype,
+        # so nothing an earlier case did to an object can leak into this one and the case alone reproduces its outcome
+        import copy as _copy
+
+        _, cname, proto = _component_obj(comp)
+        shared = _copy.deepcopy(proto) if isinstance(proto, torch.nn.Module) else proto
+        fn, _, _ = _component_obj(comp, obj=shared)
     except C.Inadmissible:
         res.inadmissible = True
         res.digest, res.n_events = log.digest(), len(log)
@@ -410,7 +421,7 @@ def execute(case: dict) -> RunResult:
                 continue
         elif call.get("via"):
             try:
-                f, _ = _component(comp, via=call["via"])
+                f, _ = _component(comp, via=call["via"], base=shared)
                 res.faults[f"history.{call['via']}"] += 1
             except Exception:
                 f = fn
